@@ -112,6 +112,27 @@ def _(h, c, d, cabs):
     yield ("match:type-only", lambda: an(entity_matching(FixedConnection, conns)(parent=match(Container)())), [x for x in conns if isinstance(x.parent, Container)], None)
 
 
+@pattern("cabinet.drawers=nested-match-on-a-field-equality-ignores")
+def _(h, c, d, cabs):
+    """two DISTINCT drawers that compare equal (Drawer.__eq__ ignores `correct`) in one collection: both are looked at"""
+    twins = [Cabinet(container=c[0], drawers=[Drawer(handle=h[0], container=c[1], correct=False), Drawer(handle=h[0], container=c[1], correct=True)]),
+             Cabinet(container=c[1], drawers=[Drawer(handle=h[1], container=c[1], correct=True), Drawer(handle=h[1], container=c[1], correct=False)]),
+             Cabinet(container=c[2], drawers=[Drawer(handle=h[2], container=c[2], correct=False)])]
+    for v in (True, False):
+        yield (repr(v), lambda: an(entity_matching(Cabinet, twins)(drawers=match(Drawer)(correct=v))), [x for x in twins if any(e.correct is v for e in x.drawers)], None)
+
+
+def two_parts_cases(h, c, d, cabs):
+    """two selected parts of one element that nothing else binds: every row is ONE element's pair of parts"""
+    out = []
+    hs, cs = select(Handle), select(Container)
+    out.append(("two-parts-of-an-unselected-root", lambda: an(entity_matching(Drawer, d)(handle=hs, container=cs)), (hs, cs), {(id(x.handle), id(x.container)) for x in d}))
+    hs2, cs2 = select(Handle), select(Container)
+    out.append(("two-parts-below-a-collection", lambda: an(entity_matching(Cabinet, cabs)(drawers=match(Drawer)(handle=hs2, container=cs2))), (hs2, cs2),
+                {(id(x.handle), id(x.container)) for cb in cabs for x in cb.drawers}))
+    return out
+
+
 def subtype_select_cases(h, c):
     conns = [FixedConnection(parent=c[1], child=h[1]), FixedConnection(parent=Handle("C1"), child=c[0]), FixedConnection(parent=c[2], child=h[2]), FixedConnection(parent=h[0], child=c[0])]
     out = []
@@ -137,7 +158,7 @@ def deep_select_cases(h, c, d, cabs):
 for k in range(3):
     h, c, d, cabs = world(k)
     SymbolGraph()
-    for label, build, sels, want in deep_select_cases(h, c, d, cabs) + subtype_select_cases(h, c):
+    for label, build, sels, want in deep_select_cases(h, c, d, cabs) + subtype_select_cases(h, c) + two_parts_cases(h, c, d, cabs):
         st, got = guarded(lambda: list(build().evaluate()))
         rep.case((k, "deep-select", label), nontrivial=bool(want), sample={"world": k, "pattern": "deep-select", "argument": label})
         inp = {"world": k, "pattern": "deep-select", "argument": label}
@@ -150,6 +171,18 @@ for k in range(3):
         found = {tuple(r[s_] if isinstance(r[s_], str) else id(r[s_]) for s_ in sels) for r in got}
         if found != want:
             rep.fail(f"inconsistent-selection::deep-select::{label}", f"world {k} {label}: {len(found - want)} reported pairs are wrong, {len(want - found)} missing", inp)
+    # the selecting forms constrain exactly like the matching ones: select_any / select_all on a scalar and on a collection attribute
+    for label, sel_form, match_form in (
+            ("drawer.container=any[C1,C2]", lambda: an(entity_matching(Drawer, d)(container=select_any([c[1], c[2]]))), lambda: an(entity_matching(Drawer, d)(container=match_any([c[1], c[2]])))),
+            ("drawer.handle=any[H1]", lambda: an(entity_matching(Drawer, d)(handle=select_any([h[1]]))), lambda: an(entity_matching(Drawer, d)(handle=match_any([h[1]]))))):
+        st_s, got_s = guarded(lambda: list(sel_form().evaluate()))
+        st_m, got_m = guarded(lambda: list(match_form().evaluate()))
+        rep.case((k, "select-vs-match", label), sample={"world": k, "pattern": "select-vs-match", "argument": label})
+        want_n = len([x for x in d if (x.container in (c[1], c[2]) if "container" in label else x.handle is h[1])])
+        if st_s == "exc" or st_m == "exc":
+            rep.fail("raised::select-vs-match", f"world {k} {label}: {got_s if st_s == 'exc' else got_m!r}", {"world": k, "pattern": label})
+        elif len(got_m) != want_n or len(got_s) != want_n:
+            rep.fail("select-disagrees-with-match::" + label.split("=")[0], f"world {k} {label}: match_any returns {len(got_m)}, select_any {len(got_s)}, {want_n} elements satisfy", {"world": k, "pattern": label})
     for pname, gen in PATTERNS:
         for label, build, want, sel in gen(h, c, d, cabs):
             st, got = guarded(lambda: list(build().evaluate()))
